@@ -218,7 +218,7 @@ func minimise(wk *worker, spec zipgen.Archive, path []string, id string, valueSt
 // is the systematic one.
 var aliases = map[string]string{
 	"wrong:reader|[size=0&desc=24sig]": "empty-member-zip64-descriptor-misread",
-	"wrong:writer|[size=0&desc=24sig]": "empty-member-zip64-descriptor-misread-corrupts-rewrite",
+	"wrong:writer|[size=0&desc=24sig]": "empty-member-zip64-descriptor-misread-corrupts-rewrite", // key form before writers were named in keys
 	"panic:zipslicer.(*Directory).GetOriginalDirectory>zipslicer.(*Directory).WriteDirectory": "getoriginaldirectory-nil-writer-panic",
 	"wrong:reserialise:getoriginaldirectory:end-records-zero-padded|any":                      "getoriginaldirectory-zero-padded-end-record",
 	"wrong:reserialise:getoriginaldirectory-trim:end-records-zero-padded|any":                 "getoriginaldirectory-zero-padded-end-record",
@@ -437,6 +437,15 @@ func attribute(wk *worker, specs []zipgen.Archive, records []record) []*keyInfo 
 				hit.prefix = r.Sym.Kind + ":" + stageGroup(r.Sym.Stage)
 				if stageGroup(r.Sym.Stage) == "reserialise" && r.Sym.Kind == "wrong" {
 					hit.prefix += ":" + r.Sym.Stage + ":" + r.Sym.Class
+				}
+				if stageGroup(r.Sym.Stage) == "writer" {
+					// which writer, and for wrong output what is wrong with it: a
+					// known deviation of one writer must not cover another writer
+					// or another symptom on the same input class
+					hit.prefix += ":" + strings.TrimPrefix(r.Sym.Stage, "op-")
+					if r.Sym.Kind == "wrong" {
+						hit.prefix += ":" + r.Sym.Class
+					}
 				}
 				if len(path) > 1 || (len(path) == 1 && stageGroup(r.Sym.Stage) != "writer") {
 					hit.prefix += "@" + pathKey(path)
